@@ -103,7 +103,7 @@ def check(ctx, rep):
     ss = ctx.fn('pcbasic/basic/implementation.py:Implementation.__setstate__')
     fls = ctx.flow(ss)
     pr = [a for a in own_nodes(ss) if isinstance(a, ast.Assign) and norm(a.targets[0]) == 'self._prompt' and norm(a.value) == 'False']
-    facts = [sorted((f.text, f.pol) for f in fls.facts(a)) for a in pr]
+    facts = [sorted((f.text, f.pol) for f in fls.facts(a) if not f.text.startswith('not ')) for a in pr]
     rep.ob('resume.prompt-suppressed-only-outside-a-program', '__setstate__ suppresses the prompt iff not interpreter.parse_mode',
            facts == [[('self.interpreter.parse_mode', False)]], repr(facts), ctx.where(ss))
     # a file that was open for writing is rebuilt up to the recorded position only: what lies behind it in the file on disk was
